@@ -62,6 +62,7 @@ Chains(P, sp) == LET hot == HotAt(P, sp)
 
 HasRes(Q, z)  == \E i \in 1..Len(Q.res) : Q.res[i].z = z
 PolysAt(Q, z) == IF HasRes(Q, z) THEN Q.res[CHOOSE i \in 1..Len(Q.res) : Q.res[i].z = z].polys ELSE <<>>
+FpAt(Q, z)    == IF HasRes(Q, z) THEN Q.res[CHOOSE i \in 1..Len(Q.res) : Q.res[i].z = z].fp ELSE ""   \* exact float bit patterns
 Requested(Q)  == {Q.lv[i].z : i \in 1..Len(Q.lv)}
 Ok == R.out = "ok"
 Valid == ValidPolygon(R.poly)
@@ -225,6 +226,6 @@ C07_ReverseFlag ==
 C08_LevelLocal ==
   \A j \in Later : LET Q == Trace[j] IN
     (Q.poly = R.poly /\ SameFlagsExcept(Q, "none") /\ Ok /\ Q.out = "ok") =>
-      \A z \in Requested(R) \cap Requested(Q) : HasRes(R, z) = HasRes(Q, z) /\ PolysAt(R, z) = PolysAt(Q, z)
+      \A z \in Requested(R) \cap Requested(Q) : HasRes(R, z) = HasRes(Q, z) /\ PolysAt(R, z) = PolysAt(Q, z) /\ FpAt(R, z) = FpAt(Q, z)
 C08_KeysRequested == Ok => \A i \in 1..Len(R.res) : R.res[i].z \in Requested(R)
 =============================================================================
